@@ -10,6 +10,7 @@ import os
 import re
 
 from vlib import Hit, Result, diff_lines, sh
+from props.stress_twin import run_twin, twin_replay
 
 ASSUMPTIONS = [
     'sequentially consistent interleaving at the granularity of one atomic access / one spinlock critical section with at most one unprotected access (memory_order annotations not modelled; compare_exchange_strong never fails spuriously)',
@@ -153,7 +154,21 @@ def run(ctx):
               'interleaving of the ticket CAS steps and every arrival\'s start node from VERIF_SEED; the extracted model replays '
               'it; non-trivial = expected >= 2 and >= 2 threads in the first phase; distinct = distinct (input, schedule). '
               'LOCKSTEP (latch): count 0..4, 1..5 threads with count_down(n)/wait/try_wait whose decrements add up to the count; non-trivial = a waiter suspended. DIFF (latch and call_once, sequential programs). RUNTIME: barrier 2..12 participants on 4 workers, 3..145 phases, drops; latch '
-              'with 1..8 waiters; call_once with 0..2 throwing runs; event with late waiters; stale wake-up scenario (F12): 4500 trials (latch::wait, latch::arrive_and_wait, event::wait after a notified timed wait).')
+              'with 1..8 waiters; call_once with 0..2 throwing runs; event with late waiters; stale wake-up scenario (F12): 4500 trials (latch::wait, latch::arrive_and_wait, event::wait after a notified timed wait). '
+              'STRESS (free-running stress twin, harness/c09_stress.cpp): pika::barrier and pika::latch on plain std::threads, real '
+              'concurrency, no controller, no hook installed, threads released from one spin barrier with offsets swept over 0..255 '
+              'spin iterations. Barrier trials: 2..6 participants, 1..8 phases (1 in 150: 129..136 phases, the 8-bit phase wraps), '
+              'counting completion function, per phase and participant arrive_and_wait / arrive + spin + wait(token) / one '
+              'arrive_and_drop; ledger arrived[k] (incremented before arriving), left[k] (after the wait returned), done[k] (set by '
+              'the completion function); monitors: nobody leaves phase k before all its participants arrived (left_early), '
+              'completion not before all arrived (completion_early), exactly once per phase (completion_count), nobody leaves '
+              'before the completion function returned (released_before_completion / completion_after_release). Latch trials: '
+              'count 1..12 split over 1..5 count_down(n) threads and arrive_and_wait(n) participants, waiters in wait() or polling '
+              'try_wait(); ledger pending decreased before each count_down; monitors: wait / arrive_and_wait / try_wait()==true only '
+              'when pending == 0, released at the end. A trial without progress for 20 s is reported as hang with the position of '
+              'every participant (lost arrival / lost decrement); forked child, crash = hit; 10 s time box quick, 60 s thorough. '
+              'It exists because lock-step cannot schedule inside an atomic step that a code change split in two (ticket CAS -> '
+              'load; store makes two arrivals both take the first half of a ticket: found by the twin within a few trials).')
     ctx.build_pika()
     drv = ctx.build_model('C09', 'ExtractC09.v', 'drv_c09.ml')
     h_tree = ctx.build_harness('c09_tree', 'c09_tree.cpp')
@@ -168,6 +183,10 @@ def run(ctx):
             run_tree(ctx, r, drv, h_tree, ctx.seed + 1000 * k, 1500)
         for k in range(3):
             run_rt(ctx, r, drv, h_rt, ctx.seed + 1000 * k, 3, 9000)
+    hs = ctx.build_harness('c09_stress', 'c09_stress.cpp')
+    if not ctx.replay or twin_replay(ctx, 'c09_stress'):
+        run_twin(ctx, r, 'C09', hs, 'c09_stress', 'BLS', [], 100000000, 10000 if ctx.tier == 'quick' else 60000,
+                 'barrier / latch on OS threads', min_trials=5000, sig_prefix='C09:stress')
     r.notes.append('F19 (call_once after a throw: late event set leaves waiters spinning without yielding) is repaired; the once_retry scenario (hook 930 delays the thrower between its two hand-back steps) reports it again when the order is reverted')
     r.notes.append('F12 (latch::wait / arrive_and_wait returning early after a notified timed wait) is repaired in the tree; the '
                    'latch_f12 monitor reports it again when the repair is reverted (about 4% of the trials on the original code)')
